@@ -7,6 +7,7 @@ import (
 	"fmt"
 	"io"
 	"math"
+	"syscall"
 
 	"go.1password.io/spg"
 )
@@ -206,6 +207,20 @@ func (t *Tape) Read(p []byte) (int, error) {
 			rec.Got, rec.Err = n, errInjected.Error()
 			t.dead = errInjected
 			return n, errInjected
+		case "TMP0", "TMP2", "ONCE0", "ONCE1":
+			// transient failures: the source reports an error for this one read and works again
+			// afterwards. TMP* is a "temporary" error (EAGAIN), ONCE* a plain one.
+			k := int(f.Kind[len(f.Kind)-1] - '0')
+			if k > want {
+				k = want
+			}
+			n := t.deliver(p[:k])
+			var e error = errInjected
+			if f.Kind[0] == 'T' {
+				e = syscall.EAGAIN
+			}
+			rec.Got, rec.Err = n, e.Error()
+			return n, e
 		case "EOF":
 			rec.Err = io.EOF.Error()
 			t.dead = io.EOF
